@@ -17,6 +17,8 @@ NAMES = ["DRAIN", "TIMER", "C_START", "C_FINISH", "M_UP", "C_DISC", "C_FORCE", "
          "CONNECT_ERR", "D_HELLO", "D_DISCREQ", "D_GARBAGE", "EOF", "RESET", "TURN", "C_CONNECT", "D_BADAUTH"]
 NA = len(NAMES)
 SH0 = shard_int("SH0", 0)
+SH1LO = shard_int("SH1LO", 0)
+SH1HI = shard_int("SH1HI", 20)
 CMODE = shard_int("CMODE", 0)  # 0: TCP connect completes at once; 1: stays pending until CONNECT_OK / CONNECT_ERR
 PREFIX = shard_int("PREFIX", 0)  # concrete history before the symbolic events
 PREFIX_NAMES = ["fresh client", "session up", "session ended by device", "started, not finished", "started then disconnect()",
@@ -209,12 +211,12 @@ class Run:
                 return False
         elif ev == EOF:
             tr = w.transport
-            if tr is None or tr.closing:
+            if tr is None or tr.closing or not tr.made:
                 return False
             tr.feed_eof()
         elif ev == RESET:
             tr = w.transport
-            if tr is None or tr.closing:
+            if tr is None or tr.closing or not tr.made:
                 return False
             tr.feed_reset()
         return True
@@ -302,7 +304,7 @@ def _run(events: list) -> bool:
 def h19_3(a0: int, a1: int, a2: int) -> bool:
     """
     pre: a0 == SH0
-    pre: 0 <= a1 < NA and 0 <= a2 < NA
+    pre: SH1LO <= a1 < SH1HI and 0 <= a2 < NA
     post: _
     """
     return _run([a0, a1, a2])
@@ -311,7 +313,7 @@ def h19_3(a0: int, a1: int, a2: int) -> bool:
 def h19_4(a0: int, a1: int, a2: int, a3: int) -> bool:
     """
     pre: a0 == SH0
-    pre: 0 <= a1 < NA and 0 <= a2 < NA and 0 <= a3 < NA
+    pre: SH1LO <= a1 < SH1HI and 0 <= a2 < NA and 0 <= a3 < NA
     post: _
     """
     return _run([a0, a1, a2, a3])
@@ -341,9 +343,12 @@ def shards(tier: str) -> list:
     fn = "h19_3" if tier == "quick" else "h19_4"
     combos = [(p, 0) for p in range(9)] + [(0, 1), (6, 1)]
     for p, cm in combos:
+        # histories after which the client is idle again enable far more follow-ups: split the second event
+        splits = [(0, 5), (5, 10), (10, 15), (15, NA)] if (p == 6 or tier != "quick") else [(0, NA)]
         for ev in _enabled_first(p, cm):
-            out.append({"fn": fn, "env": {"PREFIX": p, "CMODE": cm, "SH0": ev}, "cond_timeout": 600 if tier == "quick" else 2400, "path_timeout": 60,
-                        "desc": f"history '{PREFIX_NAMES[p]}' (connect {'immediate' if cm == 0 else 'pending'}), first event {NAMES[ev]}, then {2 if tier == 'quick' else 3} symbolic events"})
+            for lo, hi in splits:
+                out.append({"fn": fn, "env": {"PREFIX": p, "CMODE": cm, "SH0": ev, "SH1LO": lo, "SH1HI": hi}, "cond_timeout": 600 if tier == "quick" else 2400, "path_timeout": 60,
+                            "desc": f"history '{PREFIX_NAMES[p]}' (connect {'immediate' if cm == 0 else 'pending'}), first event {NAMES[ev]}, second in [{lo},{hi}), then {1 if tier == 'quick' else 2} more symbolic events"})
     return out
 
 
